@@ -49,7 +49,7 @@ theorem C08_reexport_v5 (c : Config) (hok : c.t.exportOk = true) (st st' : PStat
   obtain ⟨v, kind, hv, _, hdk, hpv⟩ := parsePacket_ok_inv c st st' buf _ rest hp
   have hvk : v = kind := hdisp _ (lookup_mem hdk)
   obtain ⟨hl2, hver, _⟩ := beU_some hv
-  rcases parseVersioned_ok_inv c st st' kind _ _ rest hpv with ⟨hk, _, h', rs', e, hpf⟩ | ⟨_, _, _, _, e, _⟩ | ⟨_, _, e⟩ | ⟨_, _, e⟩
+  rcases parseVersioned_ok_inv_a1 c st st' kind _ _ rest hpv with ⟨hk, _, h', rs', e, hpf⟩ | ⟨_, _, _, _, e, _⟩ | ⟨_, _, e⟩ | ⟨_, _, e⟩
   · simp only [Packet.v5.injEq] at e
     obtain ⟨e1, e2⟩ := e
     subst e1 e2
@@ -69,7 +69,7 @@ theorem C08_reexport_v7 (c : Config) (hok : c.t.exportOk = true) (st st' : PStat
   obtain ⟨v, kind, hv, _, hdk, hpv⟩ := parsePacket_ok_inv c st st' buf _ rest hp
   have hvk : v = kind := hdisp _ (lookup_mem hdk)
   obtain ⟨hl2, hver, _⟩ := beU_some hv
-  rcases parseVersioned_ok_inv c st st' kind _ _ rest hpv with ⟨_, _, _, _, e, _⟩ | ⟨hk, _, h', rs', e, hpf⟩ | ⟨_, _, e⟩ | ⟨_, _, e⟩
+  rcases parseVersioned_ok_inv_a1 c st st' kind _ _ rest hpv with ⟨_, _, _, _, e, _⟩ | ⟨hk, _, h', rs', e, hpf⟩ | ⟨_, _, e⟩ | ⟨_, _, e⟩
   · simp at e
   · simp only [Packet.v7.injEq] at e
     obtain ⟨e1, e2⟩ := e
@@ -88,7 +88,7 @@ theorem C08_reexport_wireLen (c : Config) (hok : c.t.exportOk = true) (st st' : 
     ∃ n, wireLen c pkt = some n ∧ n ≤ buf.length ∧ rest = buf.drop n ∧ exportPacket c pkt = some (.ok (buf.take n)) := by
   obtain ⟨v, kind, hv, _, hdk, hpv⟩ := parsePacket_ok_inv c st st' buf _ rest hp
   obtain ⟨hl2, _, _⟩ := beU_some hv
-  rcases parseVersioned_ok_inv c st st' kind _ _ rest hpv with ⟨_, _, h', rs', e, hpf⟩ | ⟨_, _, h', rs', e, hpf⟩ | ⟨_, _, e⟩ | ⟨_, _, e⟩
+  rcases parseVersioned_ok_inv_a1 c st st' kind _ _ rest hpv with ⟨_, _, h', rs', e, hpf⟩ | ⟨_, _, h', rs', e, hpf⟩ | ⟨_, _, e⟩ | ⟨_, _, e⟩
   · subst e
     obtain ⟨a1, a2, _⟩ := parseFixed_consumes _ _ _ _ _ _ _ hpf
     rw [List.length_drop] at a1
@@ -187,7 +187,7 @@ theorem C08_parsed_wf (c : Config) (st st' : PState) (buf : Bytes) (h : List Nat
   constructor
   · intro hp
     obtain ⟨v, kind, _, _, _, hpv⟩ := parsePacket_ok_inv c st st' buf _ rest hp
-    rcases parseVersioned_ok_inv c st st' kind _ _ rest hpv with ⟨_, _, h', rs', e, hpf⟩ | ⟨_, _, _, _, e, _⟩ | ⟨_, _, e⟩ | ⟨_, _, e⟩
+    rcases parseVersioned_ok_inv_a1 c st st' kind _ _ rest hpv with ⟨_, _, h', rs', e, hpf⟩ | ⟨_, _, _, _, e, _⟩ | ⟨_, _, e⟩ | ⟨_, _, e⟩
     · simp only [Packet.v5.injEq] at e
       rw [e.1, e.2]
       exact fixedValsWf_of_parseFixed c _ _ _ _ _ _ hpf
@@ -196,7 +196,7 @@ theorem C08_parsed_wf (c : Config) (st st' : PState) (buf : Bytes) (h : List Nat
     · simp at e
   · intro hp
     obtain ⟨v, kind, _, _, _, hpv⟩ := parsePacket_ok_inv c st st' buf _ rest hp
-    rcases parseVersioned_ok_inv c st st' kind _ _ rest hpv with ⟨_, _, _, _, e, _⟩ | ⟨_, _, h', rs', e, hpf⟩ | ⟨_, _, e⟩ | ⟨_, _, e⟩
+    rcases parseVersioned_ok_inv_a1 c st st' kind _ _ rest hpv with ⟨_, _, _, _, e, _⟩ | ⟨_, _, h', rs', e, hpf⟩ | ⟨_, _, e⟩ | ⟨_, _, e⟩
     · simp at e
     · simp only [Packet.v7.injEq] at e
       rw [e.1, e.2]
